@@ -123,8 +123,10 @@ UNIT = dict(
          methods={'empty': 'RI_empty'}, self_calls={'get_read_indicator': '*lr_get_read_indicator'},
          cut_loops={0: 'WAIT'},
          must_fire={'subst:yield': 1, 'method:empty': 1, 'self_call:get_read_indicator': 1, 'reference': 1, 'cut_loop': 1}),
-    dict(id='toggle_version_and_wait', file=F, sig=r'void toggle_version_and_wait\(\)',
+    # a maintainer may give the private helper parameters (e.g. the new indicator value): they travel through the ghost words xv_toggle_arg0/1 that LR_TOGGLE fills
+    dict(id='toggle_version_and_wait', file=F, sig=r'void toggle_version_and_wait\((?:int \w+)?(?:,\s*int \w+)?\)',
          c_sig='static void lr_toggle_version_and_wait(struct left_right* self)',
+         py_pre=lambda s, lw: (lambda ps: s.replace('{', '{ ' + ''.join('int %s = xv_toggle_arg%d; ' % (n, k) for k, n in enumerate(ps)), 1))(re.findall(r'int (\w+)', lw.spec['_cxx_head'].split('(', 1)[1])),
          members=LR_MEMBERS, self_calls={'wait_for_readers': 'LR_WAIT'},
          must_fire={'A_LOAD': 1, 'A_STORE': 1, 'self_call:wait_for_readers': 2, 'member:_version_index': 2}),
     dict(id='read_guard_ctor', file=F, sig=r'explicit read_guard\(const left_right& inst\)', ctor=True,
